@@ -27,6 +27,8 @@ fn assertion_kind(i: usize, kind: usize) -> Spec {
     }
 }
 
+fn newa2() -> Envelope { build(&a(l(832), l(833))) }
+
 fn assembly() -> R {
     let thorough = rt::thorough();
     let nmax = if thorough { 5 } else { 4 };
@@ -160,6 +162,16 @@ fn assembly() -> R {
             er = must!(er.add_assertion_envelope(newa), "add refused");
             ensure!(bytes(&r) == bytes(&er), "replace_assertion differs from rebuilding", "victim {}", victim);
             if let Err(m) = well_formed(&r) { return rt::viol("replace_assertion result not canonical", m); }
+            // replacement already present / target absent
+            if nas >= 2 {
+                let other = (victim + 1) % nas;
+                let r2 = must!(e1.replace_assertion(parts[victim].clone(), parts[other].clone()), "replace_assertion refused");
+                ensure!(bytes(&r2) == bytes(&e1.remove_assertion(parts[victim].clone())), "replacing by an assertion already present must just remove the target", "victim {} by {}", victim, other);
+            }
+            if nas > 2 { return Ok(()); } // (bounded: the absent-target form on nodes of <=2 assertions)
+            let absent = build(&a(l(830), l(831)));
+            let r3 = must!(e1.replace_assertion(absent.clone(), newa2()), "replace_assertion refused");
+            ensure!(bytes(&r3) == bytes(&must!(e1.add_assertion_envelope(newa2()), "add refused")), "replacing an absent assertion must just add the new one", "");
         }
     }
     Ok(())
